@@ -78,6 +78,24 @@ type evO =
 | EatO of chunk
 | InsO of dev * chunk
 
+val evI_in : evI -> chunk
+
+val evI_out : evI -> chunk
+
+val inI_of : evI list -> byte list
+
+val outI_of : evI list -> byte list
+
+val dev_eqb : dev -> dev -> bool
+
+val evO_in : evO -> chunk
+
+val evO_out : dev -> evO -> chunk
+
+val inO_of : evO list -> byte list
+
+val outO_of : dev -> evO list -> byte list
+
 type state = { st : status; lk : owner; cin : chunk list; sin : chunk list;
                ibr : chunk; ibq : chunk list; obr : chunk; obq : chunk list;
                slog : byte list; clog : byte list; blog : byte list;
@@ -186,6 +204,16 @@ val init : chunk list -> chunk list -> state
 
 val run : bool -> bool -> label list -> state -> state option
 
+val inflightI : inpc -> chunk
+
+val inflightO : outpc -> chunk
+
+val hs_flI : hspc -> chunk
+
+val hs_flO : hspc -> chunk
+
+val conserved_I_b : byte list -> state -> bool
+
 type rv_role =
 | RvIn
 | RvOut
@@ -238,3 +266,68 @@ type rv_result =
 | RvBad of nat * state
 
 val rv_run : bool -> rv_ev list -> nat -> state -> rv_result
+
+val rg_current : bool
+
+val rg_reset : bool -> status -> state -> state
+
+val rg_step : bool -> bool -> label -> state -> state option
+
+val rg_run : bool -> bool -> label list -> state -> state option
+
+val conserved_O_b : byte list -> state -> bool
+
+val rg_is_nil : byte list -> bool
+
+val rg_stranded : state -> bool
+
+val rg_bad : byte list -> byte list -> state -> bool
+
+val rg_has : coq_N -> byte list -> bool
+
+val rg_line : byte list -> nat option
+
+type rg_mem = { rg_ie : bool; rg_oe : bool; rg_cf : bool }
+
+val rg_mem0 : rg_mem
+
+type rg_thread =
+| RgIn
+| RgOut
+| RgHs
+| RgTl
+
+val rg_next : rg_thread -> rg_mem -> state -> (label * rg_mem) option
+
+val rg_move :
+  bool -> bool -> rg_thread -> (rg_mem * state) -> (label * (rg_mem * state))
+  option
+
+val rg_at_head : rg_thread -> state -> bool
+
+val rp_current : bool
+
+type rp_state = bool * state
+
+type rp_label =
+| RpL of label
+| RpPublish
+
+val rp_is_hs : label -> bool
+
+val rp_keep : bool -> state option -> rp_state option
+
+val rp_step : bool -> bool -> bool -> rp_label -> rp_state -> rp_state option
+
+val rp_run :
+  bool -> bool -> bool -> rp_label list -> rp_state -> rp_state option
+
+val rp_next : rg_thread -> rg_mem -> rp_state -> (rp_label * rg_mem) option
+
+val rp_move :
+  bool -> bool -> bool -> rg_thread -> (rg_mem * rp_state) ->
+  (rp_label * (rg_mem * rp_state)) option
+
+val rp_at_head : rg_thread -> rp_state -> bool
+
+val rp_holds : state -> bool
